@@ -12,3 +12,4 @@ import MicroHttp.Props.Tables
 #print axioms MicroHttp.C04.setLimit_only_limit
 #print axioms MicroHttp.Tables.no_shared_state
 #print axioms MicroHttp.Tables.no_interior_mutability
+#print axioms MicroHttp.Tables.conn_new
